@@ -114,8 +114,12 @@ def deep(v):
     return copy.deepcopy(v)
 
 
-def ensure_budget(ctx, seconds=40):
+def ensure_budget(ctx, seconds=40, quick_scale=1.0):
     """core.py starts the case deadline before the Lean build; after a cold or slow build no time would be left
-    and the run would 'pass' with zero cases. Guarantee the generator a minimum of wall time."""
+    and the run would 'pass' with zero cases. Guarantee the generator a minimum of wall time.
+    `quick_scale` multiplies every `ctx.n(...)` count of the quick tier (the case phase of these properties takes a
+    few seconds, almost all of a quick run is build + audit)."""
     import time
     ctx.deadline = max(ctx.deadline, time.time() + seconds)
+    if ctx.tier == "quick" and ctx.scale == 1.0:
+        ctx.scale = quick_scale
